@@ -331,7 +331,22 @@ def run(ctx):
     for fn in (kernel_level, data_level_model, model_round2, model_round3, model_round4, oracle_coupling, oracle_wide, oracle_long_lags,
                oracle_periodic, oracle_knn, oracle_pure_python, oracle_climate, oracle_surrogates):
         t0 = time.time()
-        fn(ctx, rng, nprng, quick)
+        try:
+            fn(ctx, rng, nprng, quick)
+        except Exception as e:  # noqa
+            # an exception that escapes from the implementation (innermost Python frame inside the
+            # pyunicorn package) on an input the stage generated is a failing input, not a machinery
+            # problem; anything raised by the harness itself is re-raised (exit 2)
+            import traceback
+            tb = traceback.extract_tb(e.__traceback__)
+            last = tb[-1].filename.replace(os.sep, "/") if tb else ""
+            if "/pyunicorn/" not in last or "/harness/" in last:
+                raise
+            ctx.fail({"kind": "crash", "stage": fn.__name__, "exception": type(e).__name__},
+                     f"the implementation raised {type(e).__name__}: {e} "
+                     f"({os.path.basename(last)}:{tb[-1].lineno}) on an input of stage {fn.__name__}",
+                     {"stage": fn.__name__, "seed": ctx.seed, "tier": ctx.tier,
+                      "traceback": [ln.rstrip() for ln in traceback.format_exception(e)[-8:]]})
         stages[fn.__name__] = round(time.time() - t0, 1)
     print("  stages:", stages)
 
